@@ -78,8 +78,11 @@ def expected_cost_cents(p, t, sc):
     return int(round(total * 100))
 
 
-def observe(p, rep, outdir, job_id):
+def observe(p, rep, outdir, job_id, scen_id=None):
+    # the scenario the report is about: the one its definition names (as written by the generator), else the first
     sc = 0
+    if scen_id is not None:
+        sc = [s.fullId.split(".")[-1] for s in p.scenarios].index(scen_id)
     cols = []
     for c in rep.get("columns") or []:
         cols.append(c.get("id") if isinstance(c, dict) else (c.id if hasattr(c, "id") else str(c)))
@@ -161,7 +164,7 @@ def main(jobs_path, out_path):
                     p = parser.parse(job["text"])
                     for rep in p.reports:
                         if type(rep).__name__ and getattr(rep, "type_spec", None) is not None and rep.type_spec.value == "taskreport":
-                            out.write(json.dumps(observe(p, rep, d, job["id"])) + "\n")
+                            out.write(json.dumps(observe(p, rep, d, job["id"], (job.get("report_scenario") or {}).get(rep.fullId))) + "\n")
             except Exception:  # noqa: BLE001
                 out.write(json.dumps({"id": job["id"], "error": traceback.format_exc()[-1200:]}) + "\n")
             finally:
